@@ -17,7 +17,13 @@ pub struct RewriteVariant {
     pub world: Arc<World>,
     pub normalize: bool,
     pub min_len: usize,
+    /// the part of speech configured for joined katakana tokens
+    pub kata_pos: [&'static str; 6],
 }
+
+/// a conjugating part of speech that has an earlier sibling in the dictionary differing only after
+/// the `*` components (the configured part of speech must be matched in all six components)
+pub const P_VERB_B: [&str; 6] = ["動詞", "一般", "*", "*", "五段-カ行", "連用形-促音便"];
 
 pub struct MergeSpace {
     pub label: String,
@@ -97,7 +103,7 @@ impl MergeSpace {
                 // (forms other than the dictionary-side surface, and the cost, of a merged token are
                 // not part of the statement: differences are counted, not judged)
                 let all_katakana = parts.iter().all(|p| !p.wi_surface.is_empty() && p.wi_surface.chars().all(|c| cats.get_category_types(c).contains(CategoryType::KATAKANA)));
-                let expect_pos = if all_katakana { pos_strs(P_KATA) } else { pos_strs(P_NUM) };
+                let expect_pos = if all_katakana { pos_strs(v.kata_pos) } else { pos_strs(P_NUM) };
                 if t.pos != expect_pos {
                     o.fail(Failure::new("merged-pos", format!("{}: merged token {} {:?} has part of speech {:?}, the plugin prescribes {:?}", ctx, i, t.surface, t.pos, expect_pos)));
                 }
@@ -179,6 +185,10 @@ impl Space for MergeSpace {
 }
 
 pub fn merge_spec(name: &str, rewrite: Option<(bool, usize)>) -> WorldSpec {
+    merge_spec_pos(name, rewrite, P_KATA)
+}
+
+pub fn merge_spec_pos(name: &str, rewrite: Option<(bool, usize)>, kata_pos: [&'static str; 6]) -> WorldSpec {
     let mut s = spec_full(name, false);
     s.system.push(Row::new("カタカ", 7, 7, 4000, P_NOUN));
     s.system.push(Row::new("x", 1, 1, 3000, P_NOUN));
@@ -194,10 +204,12 @@ pub fn merge_spec(name: &str, rewrite: Option<(bool, usize)>) -> WorldSpec {
             r.pos = pos_of(P_NOUN);
         }
     }
+    // (the sibling of the conjugating part of speech P_VERB_B: `行く` carries P_VERB and comes first)
+    s.system.push(Row::new("行っ", 1, 1, 5122, P_VERB_B));
     // words of a user dictionary take part in merges and are left alone like any other
     s.users.push(vec![Row::new("タカ", 7, 7, 2500, P_NOUN), Row::new("12", 9, 9, 2000, P_NUM), Row::new("ナ", 7, 7, 2500, P_KATA).reading("ナ2")]);
     if let Some((norm, min)) = rewrite {
-        s.plugins["pathRewritePlugin"] = json!([join_numeric(norm), join_katakana(min, P_KATA)]);
+        s.plugins["pathRewritePlugin"] = json!([join_numeric(norm), join_katakana(min, kata_pos)]);
     }
     s
 }
@@ -211,8 +223,12 @@ pub fn main(tier: Tier, replay: Option<String>) -> i32 {
     for norm in [true, false] {
         for min in [1usize, 2, 3] {
             let w = Arc::new(World::build(merge_spec(&format!("W-merge-n{}-m{}", norm as u8, min), Some((norm, min)))).expect("variant"));
-            variants.push(RewriteVariant { world: w, normalize: norm, min_len: min });
+            variants.push(RewriteVariant { world: w, normalize: norm, min_len: min, kata_pos: P_KATA });
         }
+    }
+    {
+        let w = Arc::new(World::build(merge_spec_pos("W-merge-n1-m2-verb-pos", Some((true, 2)), P_VERB_B)).expect("variant"));
+        variants.push(RewriteVariant { world: w, normalize: true, min_len: 2, kata_pos: P_VERB_B });
     }
     let alpha = syms(&["1", "ア", "x"], &["2", "〇", "一", "十", ",", ".", "ァ", "カ", "タ", "東", "万", "ー", "ナ", "千", "二", "0"]);
     let bounds = tier.pick(TreeBounds { full_len: 3, ext_len: 6, max_special: 2 }, TreeBounds { full_len: 4, ext_len: 7, max_special: 2 });
